@@ -697,34 +697,34 @@ def fr_log(q):
 E2E_KINDS = ["matern", "matern_ard", "warped", "warped2", "product", "expdecay", "tuple_scale", "warped_product"]
 
 
-def build_model(kind, d, zero_mean, delta_fixed=None):
+def build_model(kind, d, zero_mean, delta_fixed=None, encoding="logarithm"):
     """returns (kernel object, mean, kernel argument for the posterior state, likelihood)"""
     scale_arr = None
     if kind == "matern":
-        k = Matern52(d)
+        k = Matern52(d, encoding_type=encoding)
     elif kind == "matern_ard":
-        k = Matern52(d, ARD=True)
+        k = Matern52(d, ARD=True, encoding_type=encoding)
     elif kind == "warped":
-        k = WarpedKernel(Matern52(d, ARD=True), [Warping(d, (0, max(1, d - 1)))])
+        k = WarpedKernel(Matern52(d, ARD=True, encoding_type=encoding), [Warping(d, (0, max(1, d - 1)))])
     elif kind == "warped2":
         # two warping blocks on non-contiguous coordinate ranges (what `kernel_with_warping` builds when a
         # categorical hyperparameter sits between numerical ones); needs d >= 3
         dd = max(3, d)
-        k = WarpedKernel(Matern52(dd, ARD=True), [Warping(dd, (0, 1)), Warping(dd, (2, dd))])
+        k = WarpedKernel(Matern52(dd, ARD=True, encoding_type=encoding), [Warping(dd, (0, 1)), Warping(dd, (2, dd))])
     elif kind == "product":
         d1 = max(1, d // 2)
-        k = ProductKernelFunction(Matern52(d1, ARD=True), Matern52(max(1, d - d1)))
+        k = ProductKernelFunction(Matern52(d1, ARD=True, encoding_type=encoding), Matern52(max(1, d - d1), encoding_type=encoding))
     elif kind == "expdecay":
         # delta free (default), or fixed to a value of [0, 1] (the constructor allows every value in between)
-        k = ExponentialDecayResourcesKernelFunction(Matern52(max(1, d - 1), ARD=True), ScalarMeanFunction(),
+        k = ExponentialDecayResourcesKernelFunction(Matern52(max(1, d - 1), ARD=True, encoding_type=encoding), ScalarMeanFunction(),
                                                     delta_fixed_value=delta_fixed)
     elif kind == "tuple_scale":
-        k = Matern52(d, ARD=True, has_covariance_scale=False)
+        k = Matern52(d, ARD=True, has_covariance_scale=False, encoding_type=encoding)
     elif kind == "warped_product":
         # input warping around a product of a stationary factor and a factor whose diagonal depends on the input
         # (exponential-decay resource kernel, resource = last coordinate); the warping covers the resource
-        k1 = Matern52(1, ARD=True)
-        k2 = ExponentialDecayResourcesKernelFunction(Matern52(1, ARD=True), ScalarMeanFunction(), delta_fixed_value=delta_fixed)
+        k1 = Matern52(1, ARD=True, encoding_type=encoding)
+        k2 = ExponentialDecayResourcesKernelFunction(Matern52(1, ARD=True, encoding_type=encoding), ScalarMeanFunction(), delta_fixed_value=delta_fixed)
         k = WarpedKernel(ProductKernelFunction(k1, k2), [Warping(3, (2, 3))])
     else:
         raise ValueError(kind)
@@ -750,8 +750,9 @@ def kernel_dim(kind, d):
     return d
 
 
-def randomize_params(rng, lik, noise_lo=1e-6, noise_hi=1.0, span=2.0):
-    """random point inside the box constraints (internal = log encoding), moderate range"""
+def randomize_params(rng, lik, noise_lo=1e-6, noise_hi=1.0, span=2.0, span_hi=None):
+    """random point inside the box constraints (internal = log encoding), moderate range; `span_hi`: upper end of the range of
+    the kernel parameters (the positive encoding softrelu(x) + lower is the identity up to rounding for large x)"""
     _, pd = create_lbfgs_arguments(lik, [None])
     conv = ParamVecDictConverter(pd)
     box = lik.box_constraints_internal()
@@ -759,7 +760,7 @@ def randomize_params(rng, lik, noise_lo=1e-6, noise_hi=1.0, span=2.0):
     for name, shape in zip(conv.names, conv.shapes):
         lo, hi = box.get(name, (None, None))
         lo = -span if lo is None else max(float(lo), -span)
-        hi = span if hi is None else min(float(hi), span)
+        hi = (span if span_hi is None else span_hi) if hi is None else min(float(hi), span if span_hi is None else span_hi)
         if "noise_variance" in name:
             lo, hi = math.log(noise_lo), math.log(noise_hi)
         for _ in range(int(sum(shape))):
@@ -775,7 +776,9 @@ def gen_e2e08(rng, tier):
             "d": rng.choice([1, 2, 3, 4, 4, 11, 13]), "n": rng.choice([1, 2, 3, 5, 7] + ([10, 14] if big else [])),
             "m": rng.choice([1, 1, 2, 4]), "t": rng.choice([1, 3, 5]), "zero_mean": rng.random() < 0.4,
             "dups": rng.choice(["none", "none", "dup", "near"]), "small_noise": rng.random() < 0.2,
-            "delta_fixed": rng.choice([None, None, 0.0, 1.0, 0.25, 0.7])}
+            "delta_fixed": rng.choice([None, None, 0.0, 1.0, 0.25, 0.7]),
+            # parameter encoding of the Matern kernels: the default logarithm or softrelu(x) + lower (`encoding_type="positive"`)
+            "encoding": rng.choice(["logarithm", "logarithm", "positive"])}
 
 
 def features_for(rng, kind, d, n, dups):
@@ -819,10 +822,12 @@ def run_e2e08(spec):
     kind, d, n, m, t = spec["model"], spec["d"], spec["n"], spec["m"], spec["t"]
     hist = {"e2e08": 1, "model:" + kind: 1, "dups:" + spec["dups"]: 1}
     mon = []
-    k, mean, lik = build_model(kind, d, spec["zero_mean"], spec.get("delta_fixed"))
+    k, mean, lik = build_model(kind, d, spec["zero_mean"], spec.get("delta_fixed"), spec.get("encoding") or "logarithm")
     if kind == "expdecay":
         hist["expdecay_delta:" + ("free" if spec.get("delta_fixed") is None else str(spec["delta_fixed"]))] = 1
-    randomize_params(rng, lik, noise_lo=(1e-8 if spec["small_noise"] else 1e-4))
+    randomize_params(rng, lik, noise_lo=(1e-8 if spec["small_noise"] else 1e-4),
+                     span_hi=(rng.choice([2.0, 45.0, 90.0]) if spec.get("encoding") == "positive" else None))
+    hist["encoding:" + (spec.get("encoding") or "logarithm")] = 1
     scale = None
     if kind == "tuple_scale":
         scale = np.array([math.exp(rng.uniform(-1.5, 1.5))])
@@ -838,7 +843,12 @@ def run_e2e08(spec):
     ynew = np.array([[rng.gauss(0, 1) for _ in range(m)]])
     noise = lik.get_noise_variance(as_ndarray=True)
     s2 = float(np.asarray(noise).reshape(-1)[0])
-    st = IncrementalUpdateGPPosteriorState(X, Y, mean, karg, noise_variance=noise)
+    # the caller's arrays are buffers which it refills after the state has been built (the state is a value: predictions,
+    # samples and updates of it are those of the data it was built from)
+    Xbuf, Ybuf = np.array(X, copy=True), np.array(Y, copy=True)
+    st = IncrementalUpdateGPPosteriorState(Xbuf, Ybuf, mean, karg, noise_variance=noise)
+    Xbuf[...] = np.array([[rng.random() for _ in range(X.shape[1])] for _ in range(X.shape[0])]).reshape(X.shape)
+    Ybuf[...] = 7.0
     L, P = np.asarray(st.chol_fact), np.asarray(st.pred_mat)
     sc = 1.0 if scale is None else float(scale[0])
 
